@@ -700,3 +700,166 @@ Proof. intros He Hn. apply end_block_inv in He. destruct r as [u|e|p]; [exfalso;
 (* ================================================================== S4: commit *)
 Theorem commit_supply s : supply (work (commit s)) = supply (work s).
 Proof. reflexivity. Qed.
+
+(* ================================================================== S2: begin_block *)
+(* ---- GovCtrler.BeginBlock touches proposals only *)
+Lemma gov_punish_money l ratio evi : same_money l (gov_punish l ratio evi).
+Proof.
+  unfold gov_punish. revert l. induction evi as [|a evi IH]; intros l; [apply same_money_refl|].
+  cbn [foldl]. eapply same_money_trans; [|apply IH].
+  generalize (List.filter (fun kp : hash * proposal => match p_voters kp.2 !! a with Some _ => true | None => false end)
+                (sorted_items (props l))). intros targets.
+  generalize l at 1 3. induction targets as [|kp targets IHt]; intros l0; [apply same_money_refl|].
+  cbn [foldl]. eapply same_money_trans; [|apply IHt].
+  destruct (props l0 !! kp.1); [repeat split|apply same_money_refl].
+Qed.
+
+(* ---- doSlashAll *)
+Lemma NoDup_sublist {A} (l1 l2 : list A) : l1 `sublist_of` l2 -> NoDup l2 -> NoDup l1.
+Proof.
+  induction 1 as [|x l1 l2 Hs IH|x l1 l2 Hs IH]; intros Hnd; [constructor| |].
+  - apply NoDup_cons in Hnd as (Hx & Hnd). apply NoDup_cons. split; [|apply IH; exact Hnd].
+    intros Hin. apply Hx. eapply elem_of_submseteq; [exact Hin|apply sublist_submseteq; exact Hs].
+  - apply NoDup_cons in Hnd as (_ & Hnd). apply IH. exact Hnd.
+Qed.
+
+Definition pow_nonneg (l : list stake) : Prop := Forall (fun s => 0 <= s_power s) l.
+
+Lemma sum_power_nonneg l : pow_nonneg l -> 0 <= sum_power l.
+Proof. induction 1 as [|s l Hs _ IH]; [unfold sum_power; simpl; lia|]. rewrite sum_power_cons. lia. Qed.
+
+Lemma remove_stake_props h l :
+  (s_hash <$> remove_stake h l) `sublist_of` (s_hash <$> l) /\
+  (pow_nonneg l -> pow_nonneg (remove_stake h l) /\ sum_power (remove_stake h l) <= sum_power l).
+Proof.
+  induction l as [|s l (IH1 & IH2)]; simpl.
+  - split; [constructor|]. intros H. split; [exact H|lia].
+  - destruct (s_hash s =? h)%N.
+    + split; [rewrite fmap_cons; apply sublist_cons; reflexivity|].
+      intros H. apply Forall_cons in H as (Hs & Hl). split; [exact Hl|]. rewrite sum_power_cons. lia.
+    + split; [rewrite !fmap_cons; apply sublist_skip; exact IH1|].
+      intros H. apply Forall_cons in H as (Hs & Hl). destruct (IH2 Hl) as (Hn & Hle).
+      split; [apply Forall_cons; auto|]. rewrite !sum_power_cons. lia.
+Qed.
+
+Lemma foldl_remove_props (removing : list stake) : forall l,
+  (s_hash <$> foldl (fun l s => remove_stake (s_hash s) l) l removing) `sublist_of` (s_hash <$> l) /\
+  (pow_nonneg l -> pow_nonneg (foldl (fun l s => remove_stake (s_hash s) l) l removing) /\
+                   sum_power (foldl (fun l s => remove_stake (s_hash s) l) l removing) <= sum_power l).
+Proof.
+  induction removing as [|s removing IH]; intros l; cbn [foldl].
+  - split; [reflexivity|]. intros H. split; [exact H|lia].
+  - destruct (IH (remove_stake (s_hash s) l)) as (I1 & I2).
+    destruct (remove_stake_props (s_hash s) l) as (R1 & R2).
+    split; [etransitivity; eassumption|].
+    intros H. destruct (R2 H) as (Hn & Hle). destruct (I2 Hn) as (Hn' & Hle'). split; [exact Hn'|lia].
+Qed.
+
+Lemma quot_slash_bounds p ratio : 0 <= p -> 0 <= ratio <= 100 -> 0 <= (p * ratio) `quot` 100 <= p.
+Proof.
+  intros Hp Hr. rewrite Z.quot_div_nonneg by nia. split; [apply Z.div_pos; nia|].
+  apply Z.div_le_upper_bound; nia.
+Qed.
+
+Lemma slash_all_props d ratio :
+  0 <= ratio <= 100 -> 
+  (s_hash <$> d_stakes (slash_all d ratio).1) `sublist_of` (s_hash <$> d_stakes d) /\
+  (pow_nonneg (d_stakes d) ->
+     pow_nonneg (d_stakes (slash_all d ratio).1) /\
+     sum_power (d_stakes (slash_all d ratio).1) <= sum_power (d_stakes d)).
+Proof.
+  intros Hr. unfold slash_all. cbn [fst d_stakes].
+  set (small := fun s : stake => (s_power s * ratio) `quot` 100 <? 1).
+  set (slashed := map (fun s => if small s then s else with_power (s_power s - (s_power s * ratio) `quot` 100) s) (d_stakes d)).
+  destruct (foldl_remove_props (List.filter small (d_stakes d)) slashed) as (F1 & F2).
+  assert (Hh : s_hash <$> slashed = s_hash <$> d_stakes d).
+  { unfold slashed. induction (d_stakes d) as [|s l IH]; [reflexivity|].
+    cbn [map]. rewrite !fmap_cons, IH. destruct (small s); reflexivity. }
+  split; [rewrite <- Hh; exact F1|].
+  intros Hn.
+  assert (Hsl : pow_nonneg slashed /\ sum_power slashed <= sum_power (d_stakes d)).
+  { unfold slashed. induction Hn as [|s l Hs Hl (IH1 & IH2)]; [split; [constructor|reflexivity]|].
+    cbn [map]. pose proof (quot_slash_bounds _ _ Hs Hr) as Hq.
+    split.
+    - apply Forall_cons. split; [|exact IH1]. destruct (small s); cbn; lia.
+    - rewrite !sum_power_cons. destruct (small s); cbn; lia. }
+  destruct Hsl as (Hsn & Hsle). destruct (F2 Hsn) as (Hkn & Hkle). split; [exact Hkn|lia].
+Qed.
+
+(* ---- StakeCtrler slashing over the evidence list; power destroyed by it *)
+Fixpoint slashed_by (l : ledgers) (ratio : Z) (evi : list addr) : Z :=
+  match evi with
+  | [] => 0
+  | a :: rest =>
+      match dels l !! a with
+      | Some d =>
+          (sum_power (d_stakes d) - sum_power (d_stakes (slash_all d ratio).1))
+          + slashed_by (set_dels l (<[a := (slash_all d ratio).1]> (dels l))) ratio rest
+      | None => slashed_by l ratio rest
+      end
+  end.
+
+(* total power removed by the slashing of [begin_block s hd] *)
+Definition slashed_power (s : state) (hd : header) : Z :=
+  slashed_by (gov_punish (work s) (g_slashRatio (gparams s)) (h_evidence hd)) (g_slashRatio (gparams s)) (h_evidence hd).
+
+Definition bonded_nonneg (l : ledgers) : Prop := forall a d, dels l !! a = Some d -> pow_nonneg (d_stakes d).
+
+Lemma bonded_stakes_insert l a d' :
+  bonded_stakes (set_dels l (<[a := d']> (dels l))) ≡ₚ d_stakes d' ++ bonded_stakes (set_dels l (delete a (dels l))).
+Proof.
+  unfold bonded_stakes. rewrite !dels_set_dels. rewrite <- insert_delete_insert.
+  rewrite map_to_list_insert by apply lookup_delete. rewrite fmap_cons. reflexivity.
+Qed.
+
+Lemma elem_of_bonded l a d s : dels l !! a = Some d -> s ∈ d_stakes d -> s ∈ bonded_stakes l.
+Proof. intros Hd Hs. rewrite (bonded_stakes_delete _ _ _ Hd). apply elem_of_app. auto. Qed.
+
+Lemma ranges_ok_bonded_nonneg l : ranges_ok l -> bonded_nonneg l.
+Proof.
+  intros (_ & Hp & _) a d Hd. apply Forall_forall. intros s Hs.
+  apply Hp. apply elem_of_app. left. eapply elem_of_bonded; eassumption.
+Qed.
+
+Lemma hashes_unique_update_del l a d d' :
+  hashes_unique l -> dels l !! a = Some d ->
+  (s_hash <$> d_stakes d') `sublist_of` (s_hash <$> d_stakes d) ->
+  hashes_unique (set_dels l (<[a := d']> (dels l))).
+Proof.
+  intros (Hnd & Hk) Hd Hsub. split; [|exact Hk].
+  rewrite (bonded_stakes_delete _ _ _ Hd) in Hnd.
+  change (frozen_stakes (set_dels l (<[a:=d']> (dels l)))) with (frozen_stakes l).
+  rewrite bonded_stakes_insert. rewrite <- app_assoc, fmap_app in *.
+  eapply NoDup_sublist; [|exact Hnd]. apply sublist_app; [exact Hsub|reflexivity].
+Qed.
+
+Lemma stake_punish_cons l ratio a evi :
+  stake_punish l ratio (a :: evi) =
+  stake_punish (match dels l !! a with
+                | Some d => set_dels l (<[a := (slash_all d ratio).1]> (dels l))
+                | None => l end) ratio evi.
+Proof. reflexivity. Qed.
+
+Lemma stake_punish_props ratio evi : forall l,
+  0 <= ratio <= 100 -> hashes_unique l -> bonded_nonneg l ->
+  let l' := stake_punish l ratio evi in
+  accts l' = accts l /\ frozen l' = frozen l /\ rewards l' = rewards l /\
+  hashes_unique l' /\ bonded_nonneg l' /\
+  bonded_power l' = bonded_power l - slashed_by l ratio evi /\ 0 <= slashed_by l ratio evi.
+Proof.
+  induction evi as [|a evi IH]; intros l Hr Hu Hn; cbv zeta.
+  - unfold stake_punish. simpl. repeat split; try assumption; lia.
+  - rewrite stake_punish_cons. cbn [slashed_by]. destruct (dels l !! a) as [d|] eqn:Ed.
+    + destruct (slash_all_props d ratio Hr) as (Hsub & Hpow). destruct (Hpow (Hn _ _ Ed)) as (Hn' & Hle).
+      set (l1 := set_dels l (<[a := (slash_all d ratio).1]> (dels l))) in *.
+      assert (Hu1 : hashes_unique l1) by (apply (hashes_unique_update_del _ _ _ _ Hu Ed Hsub)).
+      assert (Hn1 : bonded_nonneg l1).
+      { intros b d0. unfold l1. rewrite dels_set_dels. destruct (decide (a = b)) as [<-|Hne].
+        - rewrite lookup_insert. intros [= <-]. exact Hn'.
+        - rewrite lookup_insert_ne by exact Hne. apply Hn. }
+      destruct (IH l1 Hr Hu1 Hn1) as (Ha & Hf & Hrw & Hu' & Hn'' & Hb & Hs0).
+      assert (Hb1 : bonded_power l1 = bonded_power l - sum_power (d_stakes d) + sum_power (d_stakes (slash_all d ratio).1)).
+      { unfold l1. rewrite bonded_power_set_dels_insert. unfold addr in *. rewrite Ed. reflexivity. }
+      refine (conj Ha (conj Hf (conj Hrw (conj Hu' (conj Hn'' (conj _ _)))))); lia.
+    + apply IH; assumption.
+Qed.
